@@ -18,7 +18,7 @@ user containers/volumes preserved) and yields the failing row / pod.
 import json
 import os
 
-THEOREMS = ["IstioModel.C19.Theorems", "IstioModel.C19.GenTie"]
+THEOREMS = ["IstioModel.C19.Theorems", "IstioModel.C19.MonitorTheorems", "IstioModel.C19.GenTie"]
 GEN = "IstioModel/Generated/C19Table.lean"
 
 
@@ -127,6 +127,104 @@ def gen_table(ctx):
     return True
 
 
+def inject_file(ctx, tag, ops):
+    """T-mon on one ops file: real webhook path (harness exec -> trace), Lean monitors on the trace, Go oracle on the same cases.
+    Returns (n_cases, ok)."""
+    import hashlib
+    import re
+    import urllib.parse
+    base = os.path.join(ctx.work, "inject.%s" % re.sub(r"[^A-Za-z0-9_.-]", "_", tag))
+    trace, mon, ver = base + ".trace", base + ".mon", base + ".verdict"
+    for p in (trace, mon, ver):
+        if os.path.exists(p):
+            os.remove(p)
+    rc, log = ctx.harness("exec", "inject", ops, trace)
+    if rc != 0 or not os.path.exists(trace):
+        ctx.tie_broken("stream-run:inject", "harness exec inject rc=%d: %s" % (rc, log[-3000:]), {"ops_file": tag})
+        return 0, False
+    rc, err = ctx.drv("inject", trace, mon)
+    if rc != 0:
+        ctx.tie_broken("stream-run:inject", "lean driver rc=%d: %s" % (rc, err[-3000:]), {"ops_file": tag})
+        return 0, False
+    rc, log = ctx.harness("oracle", "inject", ops, ver)
+    if rc != 0 or not os.path.exists(ver):
+        ctx.tie_broken("oracle:inject", "oracle did not run: rc=%s %s" % (rc, log[-2000:]))
+        return 0, False
+    op_lines = ctx.read_lines(ops)
+    cases = [op_lines[s:e] for s, e in _case_slices(op_lines)]
+    tr, mo, ve = ctx.read_lines(trace), ctx.read_lines(mon), ctx.read_lines(ver)
+    if len(tr) != len(mo):
+        ctx.tie_broken("stream-run:inject", "monitor answered %d lines for %d trace lines" % (len(mo), len(tr)))
+        return 0, False
+    # split the trace per case
+    tstarts = [k for k, l in enumerate(tr) if l.startswith("case")]
+    ok = True
+    if not (len(tstarts) == len(cases) == len(ve)):
+        ctx.tie_broken("stream-run:inject", "cases=%d trace cases=%d oracle verdicts=%d" % (len(cases), len(tstarts), len(ve)))
+        return 0, False
+    for i, c in enumerate(cases):
+        s = tstarts[i]
+        e = tstarts[i + 1] if i + 1 < len(tstarts) else len(tr)
+        seg = tr[s:e]
+        checks = [mo[k] for k in range(s, e) if tr[k] == "check"]
+        lean_v = checks[0] if checks else "FAIL incomplete-trace"
+        go_v = ve[i]
+        status = next((l.split()[1] for l in seg if l.startswith("status ")), "?")
+        ctx.count("inject.status.%s" % status)
+        if len(c) > 1:
+            ctx.count("inject.setting.%s" % (c[1].split() + ["?", "?"])[1])
+            ctx.count("inject.source.%s" % c[1].split()[0])
+        canon = "inject\n" + "\n".join(c[1:]) + "\n" + hashlib.sha1("\n".join(l for l in seg[2:] if not l.startswith("status")).encode()).hexdigest()
+        sample = None
+        if status == "injected" and len(c) > 1 and c[1].startswith("fixture") and not any(x.get("stream") == "inject" for x in ctx.samples):
+            sample = {"stream": "inject", "ops": c[:2], "trace_excerpt": [l[:160] for l in seg if l[:2] in ("c ", "i ", "v ")][:8],
+                      "lean_monitor": lean_v, "go_oracle": go_v}
+        ctx.note_case(canon, status == "injected", sample)
+        lt, gt = lean_v.split(), go_v.split()
+        if lt[:2] != gt[:2]:
+            ctx.tie_broken("monitor-vs-oracle:inject",
+                           "the Lean monitor and the Go oracle judge the same run differently: lean=%r oracle=%r" % (lean_v, go_v),
+                           {"stream": "inject", "ops": c})
+            ok = False
+        bad = lean_v if lt[0] == "FAIL" else (go_v if gt[0] == "FAIL" else None)
+        if bad:
+            ok = False
+            clause = "-".join(lean_v.split()[1:3]) if lt[0] == "FAIL" else gt[1]
+            ctx.violation("inject:%s" % clause,
+                          "the real webhook inject path violates '%s' (%s): lean monitor: %s ; go oracle: %s"
+                          % (clause, " ".join(c[1].split()[:3])[:120] if len(c) > 1 else "?", lean_v, urllib.parse.unquote(go_v)[:300]),
+                          {"stream": "inject", "ops": c, "lean_monitor": lean_v, "oracle_verdict": urllib.parse.unquote(go_v),
+                           "reduced_pods": [l[:400] for l in seg if not l.startswith("src")][:120]}, True)
+    return len(cases), ok
+
+
+def inject_stream(ctx, n):
+    """Corpus first, then all fixtures x settings + n generated pods."""
+    st = {"cases": 0, "ops": 0, "agree": True}
+    ctx.streams["inject"] = st
+    files = []
+    cdir = os.path.join(os.path.dirname(os.path.dirname(os.path.abspath(__file__))), "harness", "corpus", ctx.pid)
+    if os.path.isdir(cdir):
+        for f in sorted(os.listdir(cdir)):
+            if f.startswith("inject.") and f.endswith(".ops"):
+                files.append(("corpus:" + f, os.path.join(cdir, f)))
+    ops = os.path.join(ctx.work, "inject.gen.ops")
+    if os.path.exists(ops):
+        os.remove(ops)
+    rc, out = ctx.harness("gen", "inject", ctx.seed, n, ops)
+    if rc != 0 or not os.path.exists(ops):
+        ctx.tie_broken("harness-gen:inject", out)
+        st["agree"] = False
+    else:
+        files.append(("generated", ops))
+    for tag, f in files:
+        nc, ok = inject_file(ctx, tag, f)
+        st["cases"] += nc
+        st["ops"] += nc
+        st["agree"] = st["agree"] and ok
+    ctx.log("stream inject: %d cases, monitors and oracle %s" % (st["cases"], "accept" if st["agree"] else "REJECT / DIFFER"))
+
+
 def run(ctx):
     ctx.rule = ("table: all 1200 rows of hostNetwork x nsIgnored x label{absent,true,false,'',other} x annotation{same} x neverMatches x "
                 "alwaysMatches x policy{enabled,disabled,other}, each under 7 realisation variants (exhaustive); "
@@ -179,6 +277,8 @@ def run(ctx):
                         ctx.violation(found[0], found[1], found[2], True)
             else:
                 ctx.tie_broken("oracle:%s" % stream, "oracle did not run: rc=%s %s" % (rc, log[-2000:]))
+    # T-mon: the real webhook path once / twice, judged by the Lean monitors and by the Go oracle
+    inject_stream(ctx, ctx.n(2000, 30000))
     if not proved and not ctx.violations:
         pass  # ctx.finish reports the broken proof (no failing input found by table oracle / stream oracles)
 
@@ -203,6 +303,9 @@ def replay(ctx, path):
     p = os.path.join(ctx.work, "replay.ops")
     with open(p, "w") as f:
         f.write("\n".join(ops) + "\n")
+    if stream == "inject":
+        inject_file(ctx, "replay", p)
+        return
     ok, impl, model, log = ctx.run_pair(stream, p, "replay")
     m = ctx.compare(stream, p, impl, model)[2] if ok else None
     found = oracle(ctx, stream, ops, m.to_json() if m else None)
